@@ -214,4 +214,44 @@ def init (ltParams tyParams : List String) : St := { ty := TypeItems.init ltPara
 /-- the derive goes on to generate code only without errors -/
 def accepted (s : St) : Bool := s.errors.isEmpty && s.ty.errs == 0
 
+/-! ## The body of an inline callback (`parse_callback`, after `|arg|`)
+
+The tokens after the closure head become the body of a generated function.  As found, the code took the
+*first* token when it was a group of any kind, unwrapped it and dropped the rest: `(a + b) * c` became
+`a + b`, `(a, b)` became `a, b` (unparsable).  As repaired, only a brace group that is the whole body is
+unwrapped. -/
+
+inductive Delim where
+  | paren | bracket | brace
+deriving Repr, DecidableEq
+
+inductive BTok where
+  | grp (d : Delim) (inner : List Nat)
+  | other (n : Nat)
+deriving Repr, DecidableEq
+
+def bodyFound : List BTok → List BTok
+  | .grp _ inner :: _ => inner.map .other
+  | ts => ts
+
+def bodyFixed : List BTok → List BTok
+  | [.grp .brace inner] => inner.map .other
+  | ts => ts
+
+/-- the repaired rule keeps every token of an expression body -/
+theorem bodyFixed_keeps (ts : List BTok) (h : ∀ inner, ts ≠ [.grp .brace inner]) : bodyFixed ts = ts := by
+  unfold bodyFixed
+  split
+  · rename_i inner; exact absurd rfl (h inner)
+  · rfl
+
+/-- the two rules agree on a block -/
+theorem bodyFixed_block (inner : List Nat) : bodyFixed [.grp .brace inner] = bodyFound [.grp .brace inner] := rfl
+
+/-- **the code as found drops the tail of `(a + b) * c`** (tokens 1 2 3 in parentheses, then 4 5) -/
+theorem bodyFound_drops_tail :
+    bodyFound [.grp .paren [1, 2, 3], .other 4, .other 5] = [.other 1, .other 2, .other 3] ∧
+    bodyFixed [.grp .paren [1, 2, 3], .other 4, .other 5] = [.grp .paren [1, 2, 3], .other 4, .other 5] := by
+  decide
+
 end Logos.LogosItems
